@@ -5,10 +5,12 @@
 //! thread; the run ends with the shutdown signal. The H4 tracer (`humphrey_ws::verif::app_event`) records
 //! what the loop saw and did. Every scenario runs in a child process (`hv __c12child`) under a watchdog.
 //!
-//! Case line: `app <TAB> scenario <TAB> out`, `out = summary|h4log|execlog|frames|consumed|closed|heartbeat`.
+//! Case line: `app <TAB> scenario <TAB> out`, `out = summary|h4log|execlog|frames|consumed|closed|heartbeat|issued`.
 //!
 //! scenario = `t=<handler threads>;p=<poll µs or none>;h=<interval ms>.<timeout ms> or -;ca=<0..3>;da=<0..1>;`
-//!            `ap=<0|1>;q=<0|1>;hs=<handlers>;cl=<client>/<client>/…;tl=<step>,<step>,…`
+//!            `ap=<0|1>;q=<0|1>;hs=<handlers>[;sx=1];cl=<client>/<client>/…;tl=<step>,<step>,…`
+//!   sx=1: the handlers hold an `AsyncSender` of the app as well (absent = they do not: the actions below that go
+//!             through it do nothing)
 //!   handlers = the handlers registered on the app: a subset of the letters `c` (connect), `m` (message),
 //!             `d` (disconnect), `-` for none. A scenario without `hs=` (older case lines) registers all three.
 //!             An unregistered handler is simply not given to the builder; `ca` / `da` and the message
@@ -23,7 +25,13 @@
 //!   step    = `<µs to sleep first>:<action>`, action = `c<i>` client i's stream is handed to the app,
 //!             `u<id>:T<hex>` / `u<id>:B<hex>` AsyncSender::send to client id (900 = nobody's address),
 //!             `bT<hex>` / `bB<hex>` AsyncSender::broadcast
-//!   ca: connect handler 0 nothing, 1 greets (unicast), 2 broadcasts, 3 both; da: disconnect handler 1 broadcasts;
+//!   ca: what the connect handler does, a sum of 1 greets (`AsyncStream::send`), 2 `AsyncStream::broadcast`,
+//!       4 broadcast through the AsyncSender, 8 unicast through the AsyncSender to the next client (id+1 modulo the
+//!       number of clients; connected, not yet, no longer or never);
+//!   da: what the disconnect handler does, a sum of 1 `AsyncStream::broadcast` on the (disconnected) stream it is
+//!       given, 2 `AsyncStream::send` on it (to the client that has gone; the call panics: `assert!(self.connected)`),
+//!       4 broadcast through the AsyncSender, 8 unicast through it to the next client, 16 unicast through it to
+//!       the client that has gone;
 //!   ap: where live scripted clients put their answers to the server's Pings - one digit for all clients or one
 //!       digit per client: 0 no answer, 1 at once (the Pong is the next thing the server reads), 2 before the first
 //!       frame of the client's next message, 3 after the first fragment of its next fragmented message, 4 before the
@@ -31,7 +39,8 @@
 //!       three Pongs in a row (2..5: one Pong answers all Pings received so far; a client whose stream has ended
 //!       answers nothing); q: wait until every client is gone before shutdown.
 //!   The message handler looks at the first payload byte modulo 8: 1 echo, 2 broadcast, 3 both, 6 two echoes,
-//!   7 echo after 1 ms, else nothing.
+//!   7 echo after 1 ms, 4 broadcast through the AsyncSender, 5 unicast through it to the next client, else nothing.
+//!   Every send made by a handler or by the harness is written down by its issuer (`issued`, see `Issue`).
 //! h4log tokens (client id = port - 41000): `I<k1>.<k2>…` iteration start with the key order, `W0|W1` heartbeat
 //!   decision, `r<a>:T<hex>|B<hex>|E0|E1|N` receive result, `m<a>:T<hex>` `d<a>` `c<a>` handler dispatch,
 //!   `x<a>` removed, `t<a>` timed out, `p<a>` ping, `a<a>:<0|1>` admitted (1: address already present),
@@ -441,6 +450,8 @@ struct Scn {
     wait_gone: bool,
     /// the handlers registered on the app: bit 0 connect, bit 1 message, bit 2 disconnect
     hs: u8,
+    /// the handlers hold an `AsyncSender` of the app
+    sx: bool,
     clients: Vec<Vec<It>>,
     tl: Vec<(u64, Act)>,
 }
@@ -519,7 +530,7 @@ fn act_text(a: &Act) -> String {
 
 fn scn_text(s: &Scn) -> String {
     format!(
-        "t={};p={};h={};ca={};da={};ap={};q={};hs={};cl={};tl={}",
+        "t={};p={};h={};ca={};da={};ap={};q={};hs={}{};cl={};tl={}",
         s.threads,
         s.poll.map(|x| x.to_string()).unwrap_or_else(|| "none".into()),
         s.hb.map(|(a, b)| format!("{}.{}", a, b)).unwrap_or_else(|| "-".into()),
@@ -528,6 +539,7 @@ fn scn_text(s: &Scn) -> String {
         ap_text(&s.ap),
         s.wait_gone as u8,
         hs_text(s.hs),
+        if s.sx { ";sx=1" } else { "" },
         s.clients
             .iter()
             .map(|c| if c.is_empty() { "-".into() } else { c.iter().map(it_text).collect::<Vec<_>>().join(",") })
@@ -657,6 +669,7 @@ fn parse_scn(s: &str) -> Option<Scn> {
             None => HS_ALL,
             Some(v) => parse_hs(v)?,
         },
+        sx: matches!(kv.get("sx"), Some(&"1")),
         clients,
         tl,
     })
@@ -748,6 +761,8 @@ struct Trace {
     exited: bool,
     /// the log grew beyond any sensible run: recording stopped
     overflow: bool,
+    /// iterations started so far (`IterStart` events, folded or not)
+    iters: u64,
 }
 
 static TRACE: Mutex<Option<Trace>> = Mutex::new(None);
@@ -769,6 +784,7 @@ impl Trace {
             admitted: HashSet::new(),
             exited: false,
             overflow: false,
+            iters: 0,
         }
     }
     /// The iteration collected in `cur` is over.
@@ -807,6 +823,9 @@ impl Trace {
     fn on(&mut self, ev: AppEvent) {
         use AppEvent::*;
         hb_event(&ev);
+        if let IterStart(_) = &ev {
+            self.iters += 1;
+        }
         if self.log.len() + self.cur.len() > 60_000 {
             self.overflow = true;
             return;
@@ -898,54 +917,178 @@ impl Trace {
 
 /* ---------------------------------------------------------------- handlers */
 
+/// A server-side send as its issuer saw it (8th output field, entries joined by a blank):
+/// `<stamp>:<who>:<op>` with
+///  * stamp = how many iterations of the loop had STARTED when the call returned (`-`: it had not returned when the
+///    logs were collected). The number is read under the tracer's mutex after the call, so an iteration that starts
+///    later starts after the message was put into the channel and its flush finds it there;
+///  * who = `c<a>` / `m<a>` / `d<a>`: through the `AsyncStream` handed to the connect / message / disconnect handler
+///    run for client a; `C<a>` / `M<a>` / `D<a>`: through an `AsyncSender` from inside that handler; `e`: through
+///    the `AsyncSender` on the harness thread;
+///  * op = `u<id>:T<hex>` / `u<id>:B<hex>` a unicast to client id, `bT<hex>` / `bB<hex>` a broadcast; with a capital
+///    `U` / `B` in front instead: the call panicked (`AsyncStream::send` on the stream given to a disconnect handler
+///    does: `assert!(self.connected)`).
+struct Issue {
+    who: String,
+    target: Option<usize>,
+    body: String,
+    stamp: Option<u64>,
+    panicked: bool,
+}
+
+fn issue_text(i: &Issue) -> String {
+    let stamp = i.stamp.map(|k| k.to_string()).unwrap_or_else(|| "-".into());
+    match (i.target, i.panicked) {
+        (Some(t), false) => format!("{}:{}:u{}:{}", stamp, i.who, t, i.body),
+        (Some(t), true) => format!("{}:{}:U{}:{}", stamp, i.who, t, i.body),
+        (None, false) => format!("{}:{}:b{}", stamp, i.who, i.body),
+        (None, true) => format!("{}:{}:B{}", stamp, i.who, i.body),
+    }
+}
+
 struct HState {
     log: Mutex<Vec<String>>,
     ca: u8,
     da: u8,
+    /// the scripted clients of the scenario (for "the next client" as the addressee of a handler's unicast)
+    n: usize,
+    /// an `AsyncSender` of the app for the handlers (`sx=1`)
+    sender: Mutex<Option<AsyncSender>>,
+    issued: Mutex<Vec<Issue>>,
+    /// handler calls that have started and not yet ended
+    active: AtomicU64,
+}
+
+/// A handler call in progress (the first panic of a process takes milliseconds to unwind: the logs are collected
+/// only when no call is in progress any more).
+struct Running<'a>(&'a HState);
+
+impl<'a> Running<'a> {
+    fn new(state: &'a HState) -> Running<'a> {
+        state.active.fetch_add(1, Ordering::SeqCst);
+        Running(state)
+    }
+}
+
+impl Drop for Running<'_> {
+    fn drop(&mut self) {
+        self.0.active.fetch_sub(1, Ordering::SeqCst);
+    }
+}
+
+impl HState {
+    fn new(ca: u8, da: u8, n: usize) -> HState {
+        HState { log: Mutex::new(Vec::new()), ca, da, n, sender: Mutex::new(None), issued: Mutex::new(Vec::new()), active: AtomicU64::new(0) }
+    }
 }
 
 fn mk(text: bool, p: &[u8]) -> Message {
     if text { Message::new(p) } else { Message::new_binary(p) }
 }
 
+fn addr_of(id: usize) -> SocketAddr {
+    format!("127.0.0.1:{}", BASE_PORT as usize + id).parse().unwrap()
+}
+
+/// Make one send and write down how it went: the entry exists before the call, the stamp is taken after it.
+fn issue(state: &HState, who: String, target: Option<usize>, text: bool, p: &[u8], call: impl FnOnce(Message)) {
+    // (a text message whose bytes are not UTF-8 is a binary message: the record says what the message is)
+    let msg = mk(text, p);
+    let idx = {
+        let mut g = state.issued.lock().unwrap_or_else(|e| e.into_inner());
+        g.push(Issue { who, target, body: format!("{}{}", tb(msg.is_text()), hex(msg.bytes())), stamp: None, panicked: false });
+        g.len() - 1
+    };
+    let r = std::panic::catch_unwind(std::panic::AssertUnwindSafe(move || call(msg)));
+    // the run is not at rest before the loop has had an iteration of its own to take this message
+    let k = with_trace(|t| {
+        t.quiet_iters = 0;
+        t.iters
+    });
+    let mut g = state.issued.lock().unwrap_or_else(|e| e.into_inner());
+    g[idx].stamp = k;
+    g[idx].panicked = r.is_err();
+}
+
+/// Through the `AsyncSender` the handlers were given, if any (`sx=1`).
+fn via_sender(state: &HState, who: String, target: Option<usize>, text: bool, p: &[u8]) {
+    let g = state.sender.lock().unwrap_or_else(|e| e.into_inner());
+    if let Some(sender) = g.as_ref() {
+        match target {
+            Some(t) => issue(state, who, target, text, p, |m| sender.send(addr_of(t), m)),
+            None => issue(state, who, None, text, p, |m| sender.broadcast(m)),
+        }
+    }
+}
+
+fn next_client(state: &HState, id: usize) -> usize {
+    if state.n == 0 { id } else { (id + 1) % state.n }
+}
+
 fn on_connect(stream: AsyncStream, state: Arc<HState>) {
+    let _running = Running::new(&state);
     let id = id_of(&stream.peer_addr());
     state.log.lock().unwrap().push(format!("c{}", id));
-    if state.ca & 1 == 1 {
-        stream.send(Message::new(format!("hi{}", id)));
+    if state.ca & 1 != 0 {
+        issue(&state, format!("c{}", id), Some(id), true, format!("hi{}", id).as_bytes(), |m| stream.send(m));
     }
-    if state.ca & 2 == 2 {
-        stream.broadcast(Message::new(format!("join{}", id)));
+    if state.ca & 2 != 0 {
+        issue(&state, format!("c{}", id), None, true, format!("join{}", id).as_bytes(), |m| stream.broadcast(m));
+    }
+    if state.ca & 4 != 0 {
+        via_sender(&state, format!("C{}", id), None, true, format!("sjoin{}", id).as_bytes());
+    }
+    if state.ca & 8 != 0 {
+        via_sender(&state, format!("C{}", id), Some(next_client(&state, id)), true, format!("meet{}", id).as_bytes());
     }
 }
 
 fn on_disconnect(stream: AsyncStream, state: Arc<HState>) {
+    let _running = Running::new(&state);
     let id = id_of(&stream.peer_addr());
     state.log.lock().unwrap().push(format!("d{}", id));
-    if state.da == 1 {
-        stream.broadcast(Message::new(format!("left{}", id)));
+    if state.da & 1 != 0 {
+        issue(&state, format!("d{}", id), None, true, format!("left{}", id).as_bytes(), |m| stream.broadcast(m));
+    }
+    if state.da & 2 != 0 {
+        // to the client that has gone, through its own (disconnected) stream
+        issue(&state, format!("d{}", id), Some(id), true, format!("bye{}", id).as_bytes(), |m| stream.send(m));
+    }
+    if state.da & 4 != 0 {
+        via_sender(&state, format!("D{}", id), None, false, format!("sleft{}", id).as_bytes());
+    }
+    if state.da & 8 != 0 {
+        via_sender(&state, format!("D{}", id), Some(next_client(&state, id)), true, format!("gone{}", id).as_bytes());
+    }
+    if state.da & 16 != 0 {
+        via_sender(&state, format!("D{}", id), Some(id), true, format!("self{}", id).as_bytes());
     }
 }
 
 fn on_message(stream: AsyncStream, message: Message, state: Arc<HState>) {
+    let _running = Running::new(&state);
     let id = id_of(&stream.peer_addr());
     let p = message.bytes().to_vec();
     let t = message.is_text();
     state.log.lock().unwrap().push(format!("m{}:{}{}", id, tb(t), hex(&p)));
+    let who = format!("m{}", id);
     match p.first().map(|b| b % 8) {
-        Some(1) => stream.send(mk(t, &p)),
-        Some(2) => stream.broadcast(mk(t, &p)),
+        Some(1) => issue(&state, who, Some(id), t, &p, |m| stream.send(m)),
+        Some(2) => issue(&state, who, None, t, &p, |m| stream.broadcast(m)),
         Some(3) => {
-            stream.send(mk(t, &p));
-            stream.broadcast(mk(t, &p));
+            issue(&state, who.clone(), Some(id), t, &p, |m| stream.send(m));
+            issue(&state, who, None, t, &p, |m| stream.broadcast(m));
         }
+        // through the AsyncSender the handlers hold (nothing without one)
+        Some(4) => via_sender(&state, format!("M{}", id), None, t, &p),
+        Some(5) => via_sender(&state, format!("M{}", id), Some(next_client(&state, id)), t, &p),
         Some(6) => {
-            stream.send(mk(t, &p));
-            stream.send(mk(!t, &p[1..]));
+            issue(&state, who.clone(), Some(id), t, &p, |m| stream.send(m));
+            issue(&state, who, Some(id), !t, &p[1..], |m| stream.send(m));
         }
         Some(7) => {
             std::thread::sleep(Duration::from_millis(1));
-            stream.send(mk(t, &p));
+            issue(&state, who, Some(id), t, &p, |m| stream.send(m));
         }
         _ => {}
     }
@@ -1004,7 +1147,7 @@ fn run_scn(s: &Scn) -> RunOut {
             t.on(ev)
         }
     }));
-    let state = Arc::new(HState { log: Mutex::new(Vec::new()), ca: s.ca, da: s.da });
+    let state = Arc::new(HState::new(s.ca, s.da, s.clients.len()));
     let (shutdown_tx, shutdown_rx) = channel::<()>();
     let (hook_tx, hook_rx) = channel();
     let (done_tx, done_rx) = channel::<()>();
@@ -1031,15 +1174,18 @@ fn run_scn(s: &Scn) -> RunOut {
             if let Some((i, t)) = hb {
                 app = app.with_heartbeat(Heartbeat::new(Duration::from_millis(i), Duration::from_millis(t)));
             }
-            let _ = hook_tx.send((app.connect_hook().unwrap(), app.sender()));
+            let _ = hook_tx.send((app.connect_hook().unwrap(), app.sender(), app.sender()));
             app.run();
             let _ = done_tx.send(());
         })
         .expect("spawn app thread");
-    let (hook, sender): (_, AsyncSender) = match hook_rx.recv_timeout(WATCHDOG) {
+    let (hook, sender, sender2): (_, AsyncSender, AsyncSender) = match hook_rx.recv_timeout(WATCHDOG) {
         Ok(x) => x,
         Err(_) => return RunOut { out: "WEDGED|||||".into(), clean: false },
     };
+    if s.sx {
+        *state.sender.lock().unwrap() = Some(sender2);
+    }
     let mut socks: Vec<Option<Sock>> = Vec::new();
     let mut shared: Vec<Arc<Mutex<SockShared>>> = Vec::new();
     for (i, c) in s.clients.iter().enumerate() {
@@ -1048,7 +1194,6 @@ fn run_scn(s: &Scn) -> RunOut {
         shared.push(sh);
     }
     let mut connected: Vec<usize> = Vec::new();
-    let addr_of = |id: usize| -> SocketAddr { format!("127.0.0.1:{}", BASE_PORT as usize + id).parse().unwrap() };
     for (d, a) in &s.tl {
         if *d > 0 {
             std::thread::sleep(Duration::from_micros(*d));
@@ -1063,8 +1208,8 @@ fn run_scn(s: &Scn) -> RunOut {
                     connected.push(*i);
                 }
             }
-            Act::Unicast(id, t, p) => sender.send(addr_of(*id), mk(*t, p)),
-            Act::Broadcast(t, p) => sender.broadcast(mk(*t, p)),
+            Act::Unicast(id, t, p) => issue(&state, "e".into(), Some(*id), *t, p, |m| sender.send(addr_of(*id), m)),
+            Act::Broadcast(t, p) => issue(&state, "e".into(), None, *t, p, |m| sender.broadcast(m)),
         }
     }
     // let the app work until nothing moves any more
@@ -1105,7 +1250,7 @@ fn run_scn(s: &Scn) -> RunOut {
         // handlers still queued when the loop was left run now
         wait_until(WATCHDOG, || {
             let execs = state.log.lock().unwrap().len() as u64;
-            with_trace(|t| t.dispatched == execs).unwrap_or(true)
+            with_trace(|t| t.dispatched == execs).unwrap_or(true) && state.active.load(Ordering::SeqCst) == 0
         });
         std::thread::sleep(Duration::from_micros(300));
     }
@@ -1128,6 +1273,7 @@ fn run_scn(s: &Scn) -> RunOut {
         return RunOut { out: format!("OVERFLOW|{}||||", log.split(' ').take(400).collect::<Vec<_>>().join(" ")), clean: false };
     }
     let exec = state.log.lock().unwrap().clone();
+    let issued = state.issued.lock().unwrap_or_else(|e| e.into_inner()).iter().map(issue_text).collect::<Vec<_>>().join(" ");
     let mut frames = Vec::new();
     let mut data = 0usize;
     let mut pings = 0usize;
@@ -1149,7 +1295,7 @@ fn run_scn(s: &Scn) -> RunOut {
     }
     let summary = if returned { format!("returned;exec={};data={};pings={}", exec.len(), data, pings) } else { "WEDGED".to_string() };
     RunOut {
-        out: format!("{}|{}|{}|{}|{}|{}|{}", summary, log, exec.join(" "), frames.join(","), consumed.join(","), closed.join(","), hbt),
+        out: format!("{}|{}|{}|{}|{}|{}|{}|{}", summary, log, exec.join(" "), frames.join(","), consumed.join(","), closed.join(","), hbt, issued),
         clean: returned,
     }
 }
@@ -1177,7 +1323,7 @@ fn run_real(threads: usize, poll: u64, n: usize, m: usize, hs: u8) -> RunOut {
             t.on(ev)
         }
     }));
-    let state = Arc::new(HState { log: Mutex::new(Vec::new()), ca: 1, da: 0 });
+    let state = Arc::new(HState::new(1, 0, 0));
     let (shutdown_tx, shutdown_rx) = channel::<()>();
     let (done_tx, done_rx) = channel::<()>();
     let st2 = state.clone();
@@ -1343,7 +1489,7 @@ fn run_real(threads: usize, poll: u64, n: usize, m: usize, hs: u8) -> RunOut {
         let _ = helper.join();
         wait_until(WATCHDOG, || {
             let execs = state.log.lock().unwrap().len() as u64;
-            with_trace(|t| t.dispatched == execs).unwrap_or(true)
+            with_trace(|t| t.dispatched == execs).unwrap_or(true) && state.active.load(Ordering::SeqCst) == 0
         });
     }
     remove_app_sink();
@@ -1355,6 +1501,7 @@ fn run_real(threads: usize, poll: u64, n: usize, m: usize, hs: u8) -> RunOut {
     };
     // the last client is still connected: after `run` has returned its stream is dropped and a Close arrives
     let exec = state.log.lock().unwrap().clone();
+    let issued = state.issued.lock().unwrap_or_else(|e| e.into_inner()).iter().map(issue_text).collect::<Vec<_>>().join(" ");
     let mut frames = Vec::new();
     let mut data = 0;
     for (_, lp, fr) in clients.iter() {
@@ -1371,7 +1518,7 @@ fn run_real(threads: usize, poll: u64, n: usize, m: usize, hs: u8) -> RunOut {
         "WEDGED".to_string()
     };
     // the port stays bound by the detached Humphrey app thread: one real run per process
-    RunOut { out: format!("{}|{}|{}|{}||", summary, log, exec.join(" "), frames.join(",")), clean: false }
+    RunOut { out: format!("{}|{}|{}|{}||||{}", summary, log, exec.join(" "), frames.join(","), issued), clean: false }
 }
 
 fn parse_real(s: &str) -> Option<(usize, u64, usize, usize, u8)> {
@@ -1624,11 +1771,89 @@ fn gen_scn(rng: &mut Rng) -> Scn {
         },
         wait_gone: hb.is_some() && rng.chance(2, 3),
         hs: gen_hs(rng),
+        sx: false,
         clients,
         tl,
     }
 }
 
+
+/* ---------------------------------------------------------------- who sends: every handler kind, inside and outside */
+
+/// The sending dimension (drawn from a generator of its own, so that the scenarios stay what they were in
+/// everything else): what the connect and disconnect handlers do (`ca` 0..15, `da` 0..31: through the stream they
+/// are given and through an AsyncSender, unicast and broadcast, to live and to gone clients), whether the handlers
+/// hold an AsyncSender at all (`sx`), and sends from outside AFTER the connects, while clients close, break or
+/// time out (0..3 of them, up to a few poll intervals / one heartbeat timeout apart).
+fn enrich(s: &mut Scn, rng: &mut Rng) {
+    let n = s.clients.len();
+    s.sx = rng.chance(2, 3);
+    if rng.chance(2, 3) {
+        s.ca = rng.below(16) as u8;
+    }
+    if rng.chance(2, 3) {
+        s.da = rng.below(32) as u8;
+    }
+    if n > 64 {
+        // a broadcast per connect or disconnect costs n frames each: unicasts only
+        s.ca &= 1 | 8;
+        s.da &= 2 | 8 | 16;
+    }
+    let late = s.hb.map(|(_, t)| t * 1000).unwrap_or(4000);
+    for _ in 0..rng.below(4) {
+        let d = match rng.below(4) {
+            0 => 0,
+            1 => rng.range(200, 1500),
+            2 => rng.range(1500, 5000),
+            _ => rng.range(late / 2, late + late / 2),
+        };
+        let text = rng.chance(1, 2);
+        let k = rng.range(0, 6) as usize;
+        let p = if text { ascii(rng, b'x', k + 1) } else { rng.bytes(k) };
+        if rng.chance(1, 2) {
+            let target = if n == 0 || rng.chance(1, 8) { 900 + n } else { rng.below(n as u64) as usize };
+            s.tl.push((d, Act::Unicast(target, text, p)));
+        } else {
+            s.tl.push((d, Act::Broadcast(text, p)));
+        }
+    }
+}
+
+/// Sends written down: every handler kind issues unicasts and broadcasts through the stream it is given and through
+/// an AsyncSender, with other clients connected at that moment - in particular the disconnect handler of a client
+/// that closed (with / without status), broke (reserved opcode, cut frame, end of the connection) or timed out.
+fn directed_senders() -> Vec<String> {
+    let mut v: Vec<String> = Vec::new();
+    // client 0 goes in one of these ways after one message; clients 1 and 2 stay for some 20 ms
+    let stay = "T60,50xn,T60/40xn,T60,C";
+    for end in ["T6161,C", "T6161,C03e8", "T6161,G", "T6161,R", "T6161"] {
+        for da in [1, 2, 4, 8, 16, 31] {
+            v.push(format!("t=2;p=500;h=-;ca=0;da={};ap=0;q=0;hs=cmd;sx=1;cl={}/{};tl=0:c0,0:c1,0:c2,6000:bT6c617465", da, end, stay));
+        }
+        // a disconnect handler only, one handler thread
+        v.push(format!("t=1;p=1000;h=-;ca=0;da=31;ap=0;q=0;hs=d;sx=1;cl={}/{};tl=0:c0,0:c1,0:c2", end, stay));
+    }
+    // timed out (silent under a heartbeat) beside two clients that answer the Pings
+    for da in [1, 2, 4, 8, 16, 31] {
+        v.push(format!("t=2;p=500;h=1.8;ca=0;da={};ap=011;q=0;hs=cmd;sx=1;cl=100xn/T60,70xn,T60/60xn,T60,C;tl=0:c0,0:c1,0:c2", da));
+    }
+    v.push("t=1;p=500;h=2.6;ca=0;da=31;ap=011;q=0;hs=d;sx=1;cl=100xn/T60,70xn,T60/60xn,T60,C;tl=0:c0,0:c1,0:c2".into());
+    // all clients go, one after the other: the later disconnect handlers have fewer and fewer to tell
+    v.push("t=1;p=500;h=-;ca=0;da=5;ap=0;q=0;hs=cmd;sx=1;cl=T60,C/n,n,n,n,T60,G/8xn,R/12xn/20xn,C03e8;tl=0:c0,0:c1,0:c2,0:c3,0:c4".into());
+    // the connect handler: through the stream and through the AsyncSender, to clients of the same batch (not yet
+    // inserted / already inserted), of an earlier batch and to one that never connects
+    for ca in [4, 8, 12, 15] {
+        v.push(format!("t=2;p=1000;h=-;ca={};da=0;ap=0;q=0;hs=cmd;sx=1;cl=30xn,T60/30xn,T60/20xn,C/-;tl=0:c0,0:c1,3000:c2", ca));
+        v.push(format!("t=1;p=200;h=-;ca={};da=0;ap=0;q=0;hs=c;sx=1;cl=30xn/30xn/20xn;tl=0:c0,800:c1,800:c2", ca));
+    }
+    // the message handler: 'd' = 4 mod 8 broadcast, 'e' = 5 mod 8 unicast to the next client, through the AsyncSender;
+    // the next client connected, gone (client 2 closes first) and the sender itself (one client)
+    v.push("t=2;p=500;h=-;ca=0;da=0;ap=0;q=0;hs=cmd;sx=1;cl=n,n,T6461,T6561,20xn/n,n,n,B6401,B6501,20xn,C/C;tl=0:c0,0:c1,0:c2".into());
+    v.push("t=1;p=500;h=-;ca=1;da=1;ap=0;q=0;hs=m;sx=1;cl=T6561,T6461,T6361,n,n,C;tl=0:c0".into());
+    // without an AsyncSender in the handlers the same payloads do nothing
+    v.push("t=1;p=500;h=-;ca=12;da=28;ap=0;q=0;hs=cmd;cl=T6561,T6461,n,n,C/10xn;tl=0:c0,0:c1".into());
+    v
+}
 
 /* ---------------------------------------------------------------- heartbeat-paced, many-client and long-run families */
 
@@ -1727,6 +1952,7 @@ fn gen_hb_scn(rng: &mut Rng, thorough: bool, nclients: usize) -> Scn {
         ap,
         wait_gone: rng.chance(1, 2),
         hs: gen_hs(rng),
+        sx: false,
         clients,
         tl,
     }
@@ -1784,6 +2010,7 @@ fn gen_many_scn(rng: &mut Rng, nclients: usize, hb: bool) -> Scn {
         ap: if hb { (0..nclients).map(|_| rng.below(7) as u8).collect() } else { vec![0; nclients] },
         wait_gone: hb && rng.chance(1, 2),
         hs: gen_hs(rng),
+        sx: false,
         clients,
         tl,
     }
@@ -1825,6 +2052,7 @@ fn gen_long_scn(rng: &mut Rng, count: usize, kind: u64) -> Scn {
         ap: if hb { (0..nclients).map(|_| *rng.pick(&[1u8, 1, 2, 3, 5, 6])).collect() } else { vec![0; nclients] },
         wait_gone: false,
         hs: if rng.chance(1, 2) { HS_ALL } else { gen_hs(rng) },
+        sx: false,
         clients,
         tl,
     }
@@ -1878,6 +2106,7 @@ fn directed() -> Vec<String> {
     .into_iter()
     .chain(directed_handlers())
     .chain(directed_heartbeat())
+    .chain(directed_senders())
     .collect()
 }
 
@@ -1942,6 +2171,40 @@ pub fn gen(out: &mut Out, thorough: bool, seed: u64) {
         }
     }
     let n_new = jobs.len() - directed().len() - n;
+    // who sends (a generator of its own again): the scenario kinds above with the sending dimension drawn
+    let mut rng3 = Rng::new(seed ^ 0xC12_5E);
+    let before = jobs.len();
+    let (n_rand, n_paced) = if thorough { (6000, 600) } else { (450, 50) };
+    for _ in 0..n_rand {
+        let mut s = gen_scn(&mut rng3);
+        enrich(&mut s, &mut rng3);
+        jobs.push(("app".into(), scn_text(&s)));
+    }
+    for _ in 0..n_paced {
+        let k = rng3.range(2, 4) as usize;
+        let mut s = gen_hb_scn(&mut rng3, thorough, k);
+        enrich(&mut s, &mut rng3);
+        jobs.push(("app".into(), scn_text(&s)));
+    }
+    let many_s: Vec<usize> = if thorough { vec![50, 64, 100, 128, 200, 255, 256, 257, 500, 1000] } else { vec![50, 64, 200] };
+    for n in many_s.iter() {
+        for hb in [false, true] {
+            if *n > 300 && hb {
+                continue;
+            }
+            let mut s = gen_many_scn(&mut rng3, *n, hb);
+            enrich(&mut s, &mut rng3);
+            jobs.push(("app".into(), scn_text(&s)));
+        }
+    }
+    for (i, c) in counts.iter().enumerate() {
+        if thorough || i % 3 == 0 {
+            let mut s = gen_long_scn(&mut rng3, *c, (i as u64) % 3);
+            enrich(&mut s, &mut rng3);
+            jobs.push(("app".into(), scn_text(&s)));
+        }
+    }
+    let n_send = jobs.len() - before;
     let nreal = if thorough { 60 } else { 12 };
     for i in 0..nreal {
         let t = 1 + (i % 4) * 2;
@@ -2050,6 +2313,57 @@ pub fn gen(out: &mut Out, thorough: bool, seed: u64) {
         if has(&|t| t.starts_with('p')) {
             out.count("runs_with_ping");
         }
+        // who issued what (8th field), and whether a gone client's disconnect handler told anybody
+        let issued = o.split('|').nth(7).unwrap_or("");
+        let mut told = false;
+        let mut dead_stream_broadcast = false;
+        for e in issued.split(' ').filter(|e| !e.is_empty()) {
+            let f: Vec<&str> = e.splitn(3, ':').collect();
+            if f.len() != 3 {
+                continue;
+            }
+            let kind = match f[1].chars().next() {
+                Some('c') => "connect-handler-stream",
+                Some('m') => "message-handler-stream",
+                Some('d') => "disconnect-handler-stream",
+                Some('C') => "connect-handler-sender",
+                Some('M') => "message-handler-sender",
+                Some('D') => "disconnect-handler-sender",
+                _ => "outside-sender",
+            };
+            let op = match f[2].chars().next() {
+                Some('u') => "unicast",
+                Some('b') => "broadcast",
+                Some('U') => "unicast-panicked",
+                _ => "broadcast-panicked",
+            };
+            out.count(&format!("issued={}:{}", kind, op));
+            if f[2].starts_with('b') && (f[1].starts_with('d') || f[1].starts_with('D')) {
+                if f[1].starts_with('d') {
+                    dead_stream_broadcast = true;
+                }
+                let body = &f[2][1..];
+                if toks.iter().any(|t| t.starts_with('b') && !t.starts_with("b:") && t.ends_with(body) && t[1..].split(':').nth(1) == Some(body)) {
+                    told = true;
+                    // how the client whose disconnect handler this is had gone
+                    let a = &f[1][1..];
+                    let how = if toks.iter().any(|t| t.strip_prefix('t') == Some(a)) {
+                        "timed-out"
+                    } else if toks.iter().any(|t| t.strip_prefix('r').and_then(|x| x.strip_suffix(":E1")) == Some(a)) {
+                        "closed"
+                    } else {
+                        "broke"
+                    };
+                    out.count(&format!("disconnect_handler_broadcast_reached_connected_clients_after_client={}", how));
+                }
+            }
+        }
+        if dead_stream_broadcast {
+            out.count("runs_with_broadcast_through_disconnected_stream");
+        }
+        if told {
+            out.count("runs_with_disconnect_handler_broadcast_reaching_connected_clients");
+        }
         // several messages of one client in one iteration
         let mut multi = false;
         let mut cnt = std::collections::HashMap::new();
@@ -2082,6 +2396,6 @@ pub fn gen(out: &mut Out, thorough: bool, seed: u64) {
     }
     out.extra.insert(
         "scenarios".into(),
-        format!("{} ({} directed, {} random, {} heartbeat-paced / many-client / long-run, {} real-socket)", jobs.len(), directed().len(), n, n_new, nreal),
+        format!("{} ({} directed, {} random, {} heartbeat-paced / many-client / long-run, {} with the sending dimension drawn, {} real-socket)", jobs.len(), directed().len(), n, n_new, n_send, nreal),
     );
 }
